@@ -16,6 +16,16 @@ Lemma skeleton_ok :
   /\ it_compscans_final_reset = ""%string /\ it_compscans_name_sensor = "Observation/label"%string.
 Proof. repeat split; reflexivity. Qed.
 
+(* the attribute -> sensor table read from the tail of select() sends the three attributes to the three per-dump
+   index fields (by computation on the generated table) *)
+Lemma it_tfield_eq : it_tfield = d_target.
+Proof. reflexivity. Qed.
+Lemma index_attrs_ok :
+  sel_indices_attrs = [("scan_indices", "Observation/scan_index"); ("compscan_indices", "Observation/compscan_index");
+                       ("target_indices", "Observation/target_index")]%string
+  /\ it_field WScans = d_scan /\ it_field WCompscans = d_cscan /\ it_tfield = d_target.
+Proof. repeat split; reflexivity. Qed.
+
 (* ---------------------------------------------------------------- sorted(set(...)) *)
 Lemma insert_uniq_In : forall x y l, In y (insert_uniq x l) <-> y = x \/ In y l.
 Proof.
@@ -237,7 +247,7 @@ Lemma it_loop_spec : body_ok o body -> forall s l s' ys s'', J s s' ->
 Proof.
   intros HB s. induction l as [|v l IH]; intros s' ys s'' HJ H; cbn [it_loop] in H.
   - inversion H; subst. split; [exact HJ|]. split; [reflexivity | constructor].
-  - fold o in H.
+  - fold o in H. rewrite it_tfield_eq in H.
     destruct (select o s' (yield_kw w v)) as [s1|] eqn:E1; [|discriminate].
     destruct (name_of O w v) as [nm|] eqn:En; [|discriminate].
     destruct (indices_of d_target o (tk s1)) as [|t rest] eqn:Et; [discriminate|].
@@ -449,7 +459,7 @@ Qed.
 
 (* 12 dumps; activity slew(0-2) track(3-4) slew(5-6) scan(7-8) stop(9-11); labels 'track'@0, ''@4, 'raster'@7;
    targets A@0, B@5, A@9; segmented by the v4 pipeline *)
-Definition ex_params : params := {| p_slew := 0; p_stop := 3; p_empty := 0; p_nothing := 90 |}.
+Definition ex_params : params := {| p_slew := 0; p_stop := 3; p_empty := 0; p_nothing := 90; p_addlabel := 0 |}.
 Definition ex_seg : option seg :=
   segment V4 ex_params (Categorical.make Z.eqb [0; 1; 0; 2; 3] [0; 3; 5; 7; 9; 12]%nat)
           (Categorical.make Z.eqb [1; 0; 2] [0; 4; 7; 12]%nat) (Categorical.make Z.eqb [0; 1; 0] [0; 5; 9; 12]%nat).
